@@ -127,8 +127,10 @@ CodeContent(body) ==
       allSp == \A k \in 1..Len(inner) : inner[k] = SP
   IN IF ~allSp /\ Len(inner) >= 2 /\ inner[1] = SP /\ inner[Len(inner)] = SP THEN SubSeq(inner, 2, Len(inner) - 1) ELSE inner
 
-RECURSIVE InlHtml(_, _, _), InlSeq(_, _, _), AltText(_, _)
-InlSeq(items, s, defs) == IF items = <<>> THEN <<>> ELSE InlHtml(Head(items), s, defs) \o InlSeq(Tail(items), s, defs)
+RECURSIVE InlHtml(_, _, _, _), InlSeq(_, _, _, _), AltText(_, _)
+\* cfg = [soft |-> 0 preserve / 1 space / 2 harden, raw |-> 0 keep / 1 IgnoreRaw]: the renderer configuration
+DefaultCfg == [soft |-> 0, raw |-> 0]
+InlSeq(items, s, defs, cfg) == IF items = <<>> THEN <<>> ELSE InlHtml(Head(items), s, defs, cfg) \o InlSeq(Tail(items), s, defs, cfg)
 \* the plain-text content of an image description (the renderer's dialect: references stay as written, breaks are spaces)
 AltText(items, s) ==
   IF items = <<>> THEN <<>>
@@ -148,22 +150,22 @@ LinkTarget(it, s, defs) ==       \* [dest, title, hasTitle]
         title |-> (IF it.x.tlo > 0 THEN Unescape(SubSeq(s, it.x.tlo, it.x.thi - 1), 1) ELSE <<>>),
         hasTitle |-> it.x.tlo > 0]
 TitleAttr(t) == IF t.hasTitle THEN S(" title=\"") \o EscAttr(t.title) \o S("\"") ELSE <<>>
-InlHtml(it, s, defs) ==
+InlHtml(it, s, defs, cfg) ==
   LET body == SubSeq(s, it.lo, it.hi - 1) IN
   CASE it.k = "text" -> EscText(body)
     [] it.k = "ent" -> body
-    [] it.k = "soft" -> body
+    [] it.k = "soft" -> IF cfg.soft = 2 THEN S("<br>\n") ELSE IF cfg.soft = 1 THEN <<SP>> ELSE body
     [] it.k = "hard" -> S("<br>\n")
-    [] it.k = "emph" -> S("<em>") \o InlSeq(it.kids, s, defs) \o S("</em>")
-    [] it.k = "strong" -> S("<strong>") \o InlSeq(it.kids, s, defs) \o S("</strong>")
+    [] it.k = "emph" -> S("<em>") \o InlSeq(it.kids, s, defs, cfg) \o S("</em>")
+    [] it.k = "strong" -> S("<strong>") \o InlSeq(it.kids, s, defs, cfg) \o S("</strong>")
     [] it.k = "code" -> S("<code>") \o EscText(CodeContent(body)) \o S("</code>")
     [] it.k = "link" -> LET t == LinkTarget(it, s, defs) IN
-                        S("<a href=\"") \o EscAttr(L!Normalize(t.dest)) \o S("\"") \o TitleAttr(t) \o S(">") \o InlSeq(it.kids, s, defs) \o S("</a>")
+                        S("<a href=\"") \o EscAttr(L!Normalize(t.dest)) \o S("\"") \o TitleAttr(t) \o S(">") \o InlSeq(it.kids, s, defs, cfg) \o S("</a>")
     [] it.k = "image" -> LET t == LinkTarget(it, s, defs) IN
                          S("<img src=\"") \o EscAttr(L!Normalize(t.dest)) \o S("\"") \o TitleAttr(t) \o S(" alt=\"") \o AltText(it.kids, s) \o S("\">")
     [] it.k = "autolink" -> LET u == SubSeq(body, 2, Len(body) - 1) IN
                             S("<a href=\"") \o (IF L!IsEmail(u) THEN S("mailto:") ELSE <<>>) \o EscAttr(L!Normalize(u)) \o S("\">") \o EscAttr(u) \o S("</a>")
-    [] it.k = "html" -> body
+    [] it.k = "html" -> IF cfg.raw = 1 THEN <<>> ELSE body
 
 \* ------------------------------------------------------------------ content of the leaf blocks
 \* paragraph / setext heading: the bytes of its lines (container prefixes left out) with their source offsets; what is
@@ -211,23 +213,26 @@ InfoWord(n, src) ==
       WordEnd(i) == IF i > Len(info) \/ info[i] \in {SP, TAB} THEN i ELSE WordEnd(i + 1)
   IN Unescape(SubSeq(info, 1, WordEnd(1) - 1), 1)
 
-RECURSIVE BlockHtml(_, _, _, _), BlockSeq(_, _, _, _)
-BlockSeq(ns, tight, src, defs) == IF ns = <<>> THEN <<>> ELSE BlockHtml(Head(ns), tight, src, defs) \o BlockSeq(Tail(ns), tight, src, defs)
-BlockHtml(n, tight, src, defs) ==
-  CASE n.k = "para" -> LET h == InlSeq(LeafItems(n, src, defs), BytesOf(LeafContent(n, src)), defs) IN
+RECURSIVE BlockHtmlC(_, _, _, _, _), BlockSeqC(_, _, _, _, _)
+BlockSeqC(ns, tight, src, defs, cfg) == IF ns = <<>> THEN <<>> ELSE BlockHtmlC(Head(ns), tight, src, defs, cfg) \o BlockSeqC(Tail(ns), tight, src, defs, cfg)
+BlockHtmlC(n, tight, src, defs, cfg) ==
+  CASE n.k = "para" -> LET h == InlSeq(LeafItems(n, src, defs), BytesOf(LeafContent(n, src)), defs, cfg) IN
                        IF tight THEN h ELSE S("<p>") \o h \o S("</p>")
-    [] n.k \in {"atx", "setext"} -> HOpen(n.a) \o InlSeq(LeafItems(n, src, defs), BytesOf(LeafContent(n, src)), defs) \o HClose(n.a)
+    [] n.k \in {"atx", "setext"} -> HOpen(n.a) \o InlSeq(LeafItems(n, src, defs), BytesOf(LeafContent(n, src)), defs, cfg) \o HClose(n.a)
     [] n.k = "hr" -> S("<hr>")
     [] n.k = "fcode" -> LET w == InfoWord(n, src) IN
                         S("<pre><code") \o (IF w # <<>> THEN S(" class=\"language-") \o EscAttr(w) \o S("\"") ELSE <<>>) \o S(">")
                         \o EscText(B!Lit(n.txt, src)) \o S("</code></pre>")
     [] n.k = "icode" -> S("<pre><code") \o S(">") \o EscText(B!Lit(n.txt, src)) \o S("</code></pre>")
-    [] n.k = "html" -> Raw(n.txt, src)
-    [] n.k = "quote" -> S("<blockquote>") \o BlockSeq(n.kids, FALSE, src, defs) \o S("</blockquote>")
-    [] n.k = "list" -> IF n.a >= 0 THEN S("<ol") \o (IF n.a # 1 THEN S(" start=\"") \o Decimal(n.a) \o S("\"") ELSE <<>>) \o S(">") \o BlockSeq(n.kids, n.t, src, defs) \o S("</ol>")
-                       ELSE S("<ul>") \o BlockSeq(n.kids, n.t, src, defs) \o S("</ul>")
-    [] n.k = "item" -> S("<li>") \o BlockSeq(Tail(n.kids), n.t, src, defs) \o S("</li>")
+    [] n.k = "html" -> IF cfg.raw = 1 THEN <<>> ELSE Raw(n.txt, src)
+    [] n.k = "quote" -> S("<blockquote>") \o BlockSeqC(n.kids, FALSE, src, defs, cfg) \o S("</blockquote>")
+    [] n.k = "list" -> IF n.a >= 0 THEN S("<ol") \o (IF n.a # 1 THEN S(" start=\"") \o Decimal(n.a) \o S("\"") ELSE <<>>) \o S(">") \o BlockSeqC(n.kids, n.t, src, defs, cfg) \o S("</ol>")
+                       ELSE S("<ul>") \o BlockSeqC(n.kids, n.t, src, defs, cfg) \o S("</ul>")
+    [] n.k = "item" -> S("<li>") \o BlockSeqC(Tail(n.kids), n.t, src, defs, cfg) \o S("</li>")
     [] OTHER -> <<>>          \* reference definitions, list markers
+
+BlockHtml(n, tight, src, defs) == BlockHtmlC(n, tight, src, defs, DefaultCfg)
+BlockSeq(ns, tight, src, defs) == BlockSeqC(ns, tight, src, defs, DefaultCfg)
 
 \* inline structure of every paragraph / heading, in document order
 RECURSIVE LeafInl(_, _, _)
@@ -241,7 +246,10 @@ Model(src) ==
   LET roots == B!ParseDoc(src)
       defs == DefsOf(roots)
   IN [src |-> src, tree |-> B!SkelLSeq(roots, src), inl |-> LeafInl(roots, src, defs),
-      html |-> [i \in 1..Len(roots) |-> BlockHtml(roots[i], FALSE, src, defs)]]
+      html |-> [i \in 1..Len(roots) |-> BlockHtml(roots[i], FALSE, src, defs)],
+      \* the same under other renderer configurations: soft breaks as spaces, soft breaks hardened, raw HTML ignored
+      hcfg |-> [c \in 1..3 |-> [i \in 1..Len(roots) |->
+                   BlockHtmlC(roots[i], FALSE, src, defs, (CASE c = 1 -> [soft |-> 1, raw |-> 0] [] c = 2 -> [soft |-> 2, raw |-> 0] [] c = 3 -> [soft |-> 0, raw |-> 1]))]]]
 
 \* ------------------------------------------------------------------ generator (Blocks.tla's: sequences of line shapes) and Emit
 Init == B!Init
